@@ -43,9 +43,9 @@ Record effects := mkEff {
   f_forward : fwd            (* handed to the proxy forwarder *)
 }.
 
-(* SyncReadRevision (revision.go:114-129): leader: nothing.  Follower: fetch; an HTTP error or a
-   non-200 status is an error; a 200 body is json.Unmarshal'ed with the error ignored, so a body
-   that does not parse yields revision 0; then SetCurrentRevision. *)
+(* SyncReadRevision (revision.go:114-129): leader: nothing.  Follower: fetch; an HTTP error, a
+   non-200 status or a 200 body that is not the JSON document is an error (the json.Unmarshal error
+   is returned since the C18-F2 fix); then SetCurrentRevision. *)
 Inductive sync_result := SyncSkip | SyncSet (rev : N) | SyncFail.
 Definition sync_read (r : role) (l : reach) : sync_result :=
   match r with
@@ -53,8 +53,7 @@ Definition sync_read (r : role) (l : reach) : sync_result :=
   | Follower =>
       match l with
       | ReachOk rev => SyncSet rev
-      | Garbage200 => SyncSet 0
-      | Unreachable | Err400 => SyncFail
+      | Unreachable | Err400 | Garbage200 => SyncFail
       end
   end.
 
